@@ -70,6 +70,8 @@ def check(sid, tier="quick", tests=True):
         if rc != 0:
             v["patch_error"] = (so + se)[-300:]
         else:
+            if not tests and "tests_pass_with_change" in (meta.get("validated") or {}):
+                v["tests_pass_with_change"] = meta["validated"]["tests_pass_with_change"]  # keep the earlier verdict
             if tests:
                 rc, so, se = sh(["/venv/bin/python", "-m", "pytest", "-q", "-p", "no:cacheprovider", "--timeout=900", "-q"], cwd=cp,
                                 env={k: v_ for k, v_ in os.environ.items() if k != "CLEMATIS3_VERIF"})
